@@ -48,7 +48,7 @@ func (x *c18Exec) eval(fr *c18Frame, e ast.Expr) c18Val {
 	case *ast.StarExpr:
 		v := x.eval(fr, t.X)
 		switch v.k {
-		case c18KRecv, c18KEntry, c18KNode, c18KTable, c18KStruct, c18KUnknown:
+		case c18KRecv, c18KEntry, c18KNode, c18KTable, c18KStruct, c18KTagRec, c18KUnknown:
 			return v
 		}
 		return c18Unk("dereference `%s` is not modelled", x.src(e))
@@ -64,7 +64,7 @@ func (x *c18Exec) eval(fr *c18Frame, e ast.Expr) c18Val {
 		case token.AND:
 			v := x.eval(fr, t.X)
 			switch v.k {
-			case c18KRecv, c18KEntry, c18KNode, c18KStruct, c18KUnknown:
+			case c18KRecv, c18KEntry, c18KNode, c18KStruct, c18KTagRec, c18KUnknown:
 				return v
 			}
 			return c18Unk("address `%s` is not modelled", x.src(e))
@@ -104,6 +104,29 @@ func (x *c18Exec) eval(fr *c18Frame, e ast.Expr) c18Val {
 		return x.call(fr, t)
 	case *ast.FuncLit:
 		return c18Val{k: c18KFunc, lit: t, fr: fr}
+	case *ast.SliceExpr:
+		if base := x.eval(fr, t.X); base.k == c18KTags && t.Max == nil {
+			list := x.tagList(base)
+			lo, hi := int64(0), int64(len(list))
+			for i, b := range []ast.Expr{t.Low, t.High} {
+				if b == nil {
+					continue
+				}
+				v := x.eval(fr, b)
+				if v.k != c18KInt || v.org != 0 {
+					return c18Unk("bound of `%s` is not a decided integer", x.src(t))
+				}
+				if i == 0 {
+					lo = v.i
+				} else {
+					hi = v.i
+				}
+			}
+			if lo < 0 || hi > int64(len(list)) || lo > hi {
+				x.stop("panic", "`%s` slices [%d:%d] of a tag list of %d", x.src(t), lo, hi, len(list))
+			}
+			return c18Val{k: c18KTags, b: true, elems: list[lo:hi]}
+		}
 	case *ast.CompositeLit:
 		return x.composite(fr, t)
 	}
@@ -120,6 +143,11 @@ func (x *c18Exec) pkgValue(o types.Object, at ast.Node) c18Val {
 		return v
 	}
 	v := c18Unk("`%s` is not a local, a constant or a never-written package variable with a constant initialiser", o.Name())
+	if ki := x.keyIndexOf(o); ki != nil {
+		v := c18Val{k: c18KKeyIdx, ki: ki}
+		x.pkgC[o] = v
+		return v
+	}
 	if mv, ok := x.pkgMap(o); ok {
 		x.pkgC[o] = mv
 		return mv
@@ -177,6 +205,13 @@ func (x *c18Exec) selector(fr *c18Frame, sel *ast.SelectorExpr) c18Val {
 	case c18KStruct:
 		if len(s.Index()) == 1 {
 			return x.field(base, f, sel)
+		}
+	case c18KTagRec:
+		switch f.Name() {
+		case "Key":
+			return base.elems[0]
+		case "Value":
+			return base.elems[1]
 		}
 	case c18KRecv:
 		if len(s.Index()) == 1 {
@@ -251,9 +286,26 @@ func (x *c18Exec) index(fr *c18Frame, ix *ast.IndexExpr) c18Val {
 	case c18KMap:
 		v, _ := x.mapLookup(fr, base, ix)
 		return v
+	case c18KKeyIdx:
+		mt, _ := x.info.TypeOf(ix.X).Underlying().(*types.Map)
+		v, _ := x.keyLookup(base.ki, x.eval(fr, ix.Index), ix, mt.Elem())
+		return v
+	case c18KTags:
+		i := x.eval(fr, ix.Index)
+		list := x.tagList(base)
+		if i.k != c18KInt || i.org != 0 {
+			return c18Unk("index of `%s` is not a decided integer", x.src(ix))
+		}
+		if i.i < 0 || i.i >= int64(len(list)) {
+			x.stop("panic", "`%s` indexes %d in a tag list of %d", x.src(ix), i.i, len(list))
+		}
+		return list[i.i]
 	case c18KTable:
 		i := x.eval(fr, ix.Index)
 		if i.k == c18KCurIdx && i.i == 0 && x.loopState == 1 {
+			return c18Val{k: c18KEntry}
+		}
+		if i.k == c18KCurIdx && i.b && x.s.inBody { // the index a rule-key index gave for the entry's key
 			return c18Val{k: c18KEntry}
 		}
 		return c18Unk("`%s` is not the entry the rule loop is at", x.src(ix))
